@@ -122,6 +122,90 @@ class _NaiveTz(datetime.tzinfo):
     def dst(self, dt): return None
 
 
+class _Pep495(datetime.tzinfo):
+    """hand-written date-dependent zone (PEP 495): standard offset `std` minutes, daylight saving `delta` minutes later between the
+    second Sunday of March 02:00 (standard wall time) and the first Sunday of November 02:00 (daylight wall time); `fold` selects
+    the second reading in the repeated interval.  Pure field arithmetic on the wall-clock reading; never consults local time."""
+    def __init__(self, std, delta, name_std, name_dst):
+        self._std, self._delta, self._ns, self._nd = std, delta, name_std, name_dst
+
+    @staticmethod
+    def _nth_sunday(y, mo, n):
+        d = datetime.date(y, mo, 1)
+        first = 1 + (6 - d.weekday()) % 7
+        return first + 7 * (n - 1)
+
+    def _is_dst(self, dt):
+        if dt is None:
+            return False
+        w = dt.replace(tzinfo=None, fold=0)
+        delta = datetime.timedelta(minutes=self._delta)
+        start = datetime.datetime(w.year, 3, self._nth_sunday(w.year, 3, 2), 2)
+        end = datetime.datetime(w.year, 11, self._nth_sunday(w.year, 11, 1), 2)
+        if start + delta <= w < end - delta:
+            return True
+        if end - delta <= w < end:
+            return not dt.fold          # repeated interval: first reading is daylight time
+        if start <= w < start + delta:
+            return bool(dt.fold)        # gap
+        return False
+
+    def utcoffset(self, dt): return datetime.timedelta(minutes=self._std + (self._delta if self._is_dst(dt) else 0))
+    def dst(self, dt): return datetime.timedelta(minutes=self._delta if self._is_dst(dt) else 0)
+    def tzname(self, dt): return self._nd if self._is_dst(dt) else self._ns
+
+
+PEP495_ZONES = [[-300, 60, "EST", "EDT"], [-210, 60, "NST", "NDT"], [60, 60, "CET", "CEST"], [630, 30, "LHST", "LHDT"], [-60, 60, "AZOT", "AZOST"], [0, 60, "GMT", "BST"]]
+ZONEINFO_ZONES = ["America/New_York", "Europe/Berlin", "America/St_Johns", "Australia/Lord_Howe", "Atlantic/Azores", "Asia/Kolkata"]
+_FRONT = {}
+
+
+def front_door():
+    """ofxtools.scripts.ofxget imported with its configuration directories pointed at an empty scratch directory"""
+    if "G" not in _FRONT:
+        import tempfile, importlib
+        d = tempfile.mkdtemp(prefix="ofxv-c09-")
+        for k in ("XDG_CONFIG_HOME", "XDG_DATA_HOME", "HOME"):
+            os.environ[k] = d
+        _FRONT["G"] = importlib.import_module("ofxtools.scripts.ofxget")
+    return _FRONT["G"]
+
+
+def impl_front(text, via, slot="dtstart"):
+    """the same text through the command line's date arguments -> ('ok', fields, utc) | ('ok-instant', us) | ('reject'|'crash', class)"""
+    import io, contextlib, sys
+    G = front_door()
+    if via == "convert_datetime":
+        args = {"dtstart": None, "dtend": None, "dtasof": None}
+        args[slot] = text
+        out = _outcome(lambda: G.convert_datetime(args)[slot[2:]])
+        if out[0] != "ok":
+            return out
+        v = out[1]
+        if not isinstance(v, datetime.datetime):
+            return ("crash", "returned " + type(v).__name__)
+        utc = v.utcoffset() == datetime.timedelta(0) if v.tzinfo is not None else False
+        return ("ok", [v.year, v.month, v.day, v.hour, v.minute, v.second, v.microsecond], utc)
+    # via == "main": ofxget stmt --dryrun prints the request; read <DTSTART> back with the strict reader
+    buf, argv = io.StringIO(), sys.argv
+    sys.argv = ["ofxget", "stmt", "--dryrun", "--url", "https://ofx.invalid/", "--org", "O", "--fid", "1", "--user", "u", "--bankid", "1",
+                "--checking", "123", "--version", "203", "--start=" + text]
+    try:
+        with contextlib.redirect_stdout(buf), contextlib.redirect_stderr(io.StringIO()):
+            out = _outcome(G.main)
+    except SystemExit as e:
+        out = ("reject", "SystemExit")
+    finally:
+        sys.argv = argv
+    if out[0] != "ok":
+        return out
+    m = re.search(r"<DTSTART>(.*?)</DTSTART>", buf.getvalue(), re.S)
+    rw = read_written(m.group(1), False) if m else None
+    if rw is None:
+        return ("crash", "no readable <DTSTART> in the request: %r" % (m.group(1) if m else None,))
+    return ("ok-instant", rw[0] - rw[1] * 60 * 10 ** 6)
+
+
 def _outcome(f):
     try:
         return ("ok", f())
@@ -145,6 +229,11 @@ def impl_convert(T, text, timeonly):
 
 
 def make_tz(c):
+    if c.get("tzkind") == "pep495":
+        return _Pep495(*c["tzspec"])
+    if c.get("tzkind") == "zoneinfo":
+        import zoneinfo
+        return zoneinfo.ZoneInfo(c["zone"])
     if c["offsec"] is None:
         return _NaiveTz() if c.get("tzkind") == "declines" else None
     if c.get("tzkind") == "noname":
@@ -158,7 +247,7 @@ def make_value(c):
     tz = make_tz(c)
     if c["t"] == "tm":
         return datetime.time(h, mi, s, us, tzinfo=tz)
-    return datetime.datetime(y, mo, d, h, mi, s, us, tzinfo=tz)
+    return datetime.datetime(y, mo, d, h, mi, s, us, tzinfo=tz, fold=c.get("fold", 0))
 
 
 def value_name(v):
@@ -174,6 +263,22 @@ def evaluate(T, c):
         r = dict(c); r.update(extra)
         fails.append(C.Failure(key, what, r))
     timeonly = c["t"] == "tm"
+    if c["op"] == "conv" and c.get("via"):
+        out = impl_front(c["text"], c["via"], c.get("slot", "dtstart"))
+        want = c.get("expect")
+        door = "ofxget %s(%s)" % (c["via"], c.get("slot", "--start"))
+        if isinstance(want, int):
+            if out[0] not in ("ok", "ok-instant"):
+                fail("frontdoor:%s:valid-text-rejected" % c["via"], "%s refused %r (%s); the notation denotes instant %d us" % (door, c["text"], out[1], want), observed=out)
+            else:
+                got = out[1] if out[0] == "ok-instant" else wall_us(*out[1])
+                if got != want or (out[0] == "ok" and not out[2]):
+                    fail("frontdoor:%s:wrong-instant" % c["via"], "%s read %r as %d us; the notation denotes %d us (off by %d s)"
+                         % (door, c["text"], got, want, (got - want) // 10 ** 6), observed=out, expected_us=want)
+        elif want == "reject" and out[0] in ("ok", "ok-instant"):
+            fail("frontdoor:%s:accepts-%s" % (c["via"], c.get("cls", "corrupt")), "%s accepted a text outside the notation (%s): %r -> %r"
+                 % (door, c.get("cls"), c["text"], out[1]), observed=out)
+        return out, fails, None
     if c["op"] == "conv":
         out = impl_convert(T, c["text"], timeonly)
         exp = "OK (F %s)" % " ".join(str(x) for x in out[1]) if out[0] == "ok" else ("Err Reject" if out[0] == "reject" else "Err Crash")
@@ -220,6 +325,8 @@ def evaluate(T, c):
     if not c.get("domain"):
         return out, fails, item
     # in-domain aware value (year 1900-2200, whole-minute offset -12:00..+14:00, newline-free name)
+    if c.get("tzkind") in ("pep495", "zoneinfo") and v.utcoffset() != datetime.timedelta(seconds=c["offsec"]):
+        raise RuntimeError("case generator and tzinfo disagree on the offset of %r" % (v,))
     offmin = c["offsec"] // 60
     y, mo, d, h, mi, s, us = c["fields"]
     name_quirk = minutes_like(name) and offmin % 60 == 0
@@ -231,7 +338,9 @@ def evaluate(T, c):
         fail("unconvert:aware-value-refused", "%s().unconvert(%r) raised %s" % (c["t"], v, out[1]), observed=out)
         return out, fails, item
     rw = read_written(out[1], timeonly)
-    if rw is None or rw[2] != name:
+    if rw is not None and rw[2] != name:
+        fail("unconvert:wrong-zone-name", "%s().unconvert(%r) -> %r names the zone %r, the value's tzname() is %r" % (c["t"], v, out[1], rw[2], name), observed=out)
+    if rw is None:
         fail("unconvert:shape", "%s().unconvert(%r) -> %r is not %sHHMMSS.XXX[offset%s]" % (c["t"], v, out[1], "" if timeonly else "YYYYMMDD", ":name" if name is not None else ""), observed=out)
         return out, fails, item
     w, woff, _ = rw
@@ -491,6 +600,74 @@ def unconv_case(rng, timeonly, domain=True):
     return {"op": "unconv", "t": "tm" if timeonly else "dt", "fields": [y, mo, d, h, mi, s, us], "offsec": offsec, "name": name, "tzkind": kind, "domain": domain}
 
 
+def dst_unconv_cases(rng, n_random):
+    """aware datetimes in date-dependent zones (hand-written PEP 495 tzinfo; zoneinfo zones when the system has them) at and around both
+    transitions of several years, fold 0 and 1, +-1 ms and inside the half-millisecond before each boundary"""
+    zones = [{"tzkind": "pep495", "tzspec": z} for z in PEP495_ZONES]
+    try:
+        import zoneinfo
+        for z in ZONEINFO_ZONES:
+            try:
+                zoneinfo.ZoneInfo(z); zones.append({"tzkind": "zoneinfo", "zone": z})
+            except Exception:
+                pass
+    except ImportError:
+        pass
+    out = []
+
+    def put(zone, w, fold):
+        c = dict(zone); c.update({"op": "unconv", "t": "dt", "fields": [w.year, w.month, w.day, w.hour, w.minute, w.second, w.microsecond], "fold": fold, "name": None, "domain": True})
+        v = make_value(dict(c, offsec=0))
+        off = v.utcoffset()
+        if off is None or off.microseconds or off.seconds % 60:
+            return
+        c["offsec"] = off.days * 86400 + off.seconds
+        if not (-720 * 60 <= c["offsec"] <= 840 * 60):
+            return
+        out.append(c)
+    us = datetime.timedelta(microseconds=1)
+    deltas = [0, 1, 400, 499, 500, 501, 600, 999, 1000, 1001, 60 * 10 ** 6, 1799 * 10 ** 6, 1800 * 10 ** 6, 3599 * 10 ** 6 + 999600, 3600 * 10 ** 6, 3600 * 10 ** 6 + 400]
+    for zone in zones:
+        for y in (rng.choice([1999, 2007, 2015]), rng.choice([2021, 2024, 2030, 2100])):
+            marks = []
+            for mo in (3, 10, 11, 4):
+                for sunday in (1, 2, 4, 5):
+                    dom = _Pep495._nth_sunday(y, mo, sunday)
+                    if dom <= 31 - (mo in (4, 11)):
+                        marks += [datetime.datetime(y, mo, dom, hh) for hh in (1, 2, 3)]
+            for mk in rng.sample(marks, 4) + [datetime.datetime(y, 3, _Pep495._nth_sunday(y, 3, 2), 2), datetime.datetime(y, 11, _Pep495._nth_sunday(y, 11, 1), 2),
+                                               datetime.datetime(y, 11, _Pep495._nth_sunday(y, 11, 1), 1), datetime.datetime(y, 3, _Pep495._nth_sunday(y, 3, 2), 3)]:
+                for dl in rng.sample(deltas, 3) + [400, 600]:
+                    for sign in (1, -1):
+                        for fold in (0, 1):
+                            put(zone, mk + sign * dl * us, fold)
+    for _ in range(n_random):
+        zone = rng.choice(zones)
+        y, mo, d = rnd_date(rng, 1971, 2200)
+        h, mi, s = rnd_time(rng)
+        put(zone, datetime.datetime(y, mo, d, h, mi, s, rng.choice([0, 499, 500, 999500, 999999, rng.randrange(10 ** 6)])), rng.randrange(2))
+    return out
+
+
+def front_cases(rng, cases, n_main):
+    """the property's date-time text classes again, through the command line's date arguments (ofxget --start/--end/--asof):
+    convert_datetime for every valid text and a third of the corruptions, main() --dryrun for a few"""
+    pool = [c for c in cases if c["op"] == "conv" and c["t"] == "dt" and not c.get("via") and c.get("expect") is not None and c["text"]]
+    out = []
+    for c in pool:
+        if isinstance(c["expect"], int) or rng.random() < 0.34:
+            f = {"op": "conv", "t": "dt", "text": c["text"], "expect": c["expect"], "via": "convert_datetime", "slot": rng.choice(["dtstart", "dtend", "dtasof"])}
+            if c.get("cls"): f["cls"] = c["cls"]
+            out.append(f)
+    brk = [c for c in pool if "[" in c["text"]]
+    for c in rng.sample(brk, min(len(brk), n_main)) + rng.sample(pool, min(len(pool), n_main // 2)):
+        f = {"op": "conv", "t": "dt", "text": c["text"], "expect": c["expect"], "via": "main"}
+        if c.get("cls"): f["cls"] = c["cls"]
+        if not c["text"].startswith("-") and "\n" not in c["text"] and "\x00" not in c["text"]:
+            out.append(f)
+    return out
+
+
 def naive_cases(rng):
     out = []
     for t in ("dt", "tm"):
@@ -517,7 +694,6 @@ def run(rep, tier, rng):
     import importlib
     import ofxtools.utils as U
     import ofxtools.Types as T
-    importlib.reload(U); importlib.reload(T)
     thorough = tier == "thorough"
     pst = pattern_state()
     deep = thorough or not all(v["unchanged"] for v in pst.values())
@@ -543,6 +719,8 @@ def run(rep, tier, rng):
         c = unconv_case(rng, offmin % 5 == 0, True); c["offsec"] = offmin * 60
         cases.append(c)
     cases += naive_cases(rng)
+    cases += dst_unconv_cases(rng, 300 * scale)
+    cases += front_cases(rng, cases, 40 * scale)
 
     items, kept, seen = [], [], set()
     for c in cases:
@@ -552,8 +730,10 @@ def run(rep, tier, rng):
         seen.add(k)
         out, fails, item = evaluate(T, c)
         rep.failures.extend(fails)
-        items.append(item); kept.append((c, out))
-        kind = "%s:%s:%s" % (c["op"], c["t"], out[0] if c["op"] != "conv" else (out[0] + ("/" + c.get("cls", "valid") if c.get("cls") else "/valid")))
+        if item is not None:
+            items.append(item); kept.append((c, out))
+        kind = "%s%s:%s:%s" % (c["op"], "@" + c["via"] if c.get("via") else ("@" + c["tzkind"] if c.get("tzkind") in ("pep495", "zoneinfo") else ""), c["t"],
+                               out[0] if c["op"] != "conv" else (out[0] + ("/" + c.get("cls", "valid") if c.get("cls") else "/valid")))
         rep.count(k, nontrivial=(out[0] == "ok"), kind=kind)
     for k in (0, n_corpus, len(kept) // 3, 2 * len(kept) // 3, len(kept) - 1):
         if 0 <= k < len(kept):
@@ -564,7 +744,7 @@ def run(rep, tier, rng):
                 "with the denoted instant computed from the generating fields by days-from-civil arithmetic; every listed single-field corruption of a sample "
                 "(month 13/00, day 00/32, hour 24, minute 60, second 61, a letter in each digit position, one ASCII digit replaced by the same-valued decimal digit of another script (7 scripts; every position but the offset minutes), one digit dropped/doubled); aware values at "
                 "sub-millisecond resolution incl. rounding edges x all 1561 whole-minute offsets x named/unnamed/name-less tzinfo, written, re-read by a strict "
-                "reader and by the library (round trip); naive values both ways. Beyond the property's domain (correspondence only): years 1-9999, "
+                "reader and by the library (round trip); aware datetimes in date-dependent zones (hand-written PEP 495 tzinfo and zoneinfo zones) at and around both transitions, fold 0/1, +-1 ms and inside the last half millisecond; naive values both ways; front door: every valid date-time text and a third of the corruptions again through ofxget's convert_datetime (--start/--end/--asof), a few through ofxget main() stmt --dryrun reading <DTSTART> back (not model cases). Beyond the property's domain (correspondence only): years 1-9999, "
                 "sub-minute offsets, quirk forms ([-:EST], any separator, trailing newline, non-ASCII decimal digits, int() digit limit), offset-bracket contents "
                 "over 0 1 5 - + . : x E S T ] exhaustively to length %d plus %d longer samples. non-trivial = implementation returned a value; distinct by full case"
                 % (5 if thorough else 3, 4000 if thorough else (4000 if deep else 600)))
